@@ -14,7 +14,7 @@ from fractions import Fraction
 from props import common
 from props.common import call, num_close, sig
 from vlib import bridge, domains, engine
-from vlib.spec import cfgspec
+from vlib.spec import cfgspec, lmspec
 
 ID = "C03"
 LEVEL = "other"
@@ -119,7 +119,7 @@ def check_case(case):
     def viol(ob, what, fn, arg, got, exp):
         out["violations"].append(dict(
             obligation=ob, what=what, signature=sig(fn, what.split(":")[0], case["name"], sr),
-            replay=dict(desc, function=fn, argument=arg, observed=repr(got), expected=repr(exp), case=common.enc(case))))
+            replay=dict(desc, function=fn, argument=arg, observed=lmspec.short(got), expected=lmspec.short(exp), case=common.enc(case))))
 
     def judge(ob, fn, arg, st, v, exp):
         out["n"] += 1
